@@ -85,7 +85,7 @@ pub fn check_partition(rep: &mut Report, p: &Ivs, cp: &CharPartition, how: &str,
     if ids != want_ids || cp.class_ids().size_hint() != (want_ids.len(), Some(want_ids.len())) {
         bad!("classes", "{}: class_ids() = {:?} for {}", how, ids, case);
     }
-    for cid in [ClassId::Interval(0), ClassId::Interval(n.saturating_sub(1)), ClassId::Interval(n), ClassId::Interval(n + 1), ClassId::Complement] {
+    for cid in [ClassId::Interval(0), ClassId::Interval(n.saturating_sub(1)), ClassId::Interval(n), ClassId::Interval(n + 1), ClassId::Interval(usize::MAX), ClassId::Interval(usize::MAX - 1), ClassId::Interval(1 << 32), ClassId::Complement] {
         let want = match cid {
             ClassId::Interval(i) => i < n,
             ClassId::Complement => !comp_empty,
